@@ -296,7 +296,7 @@ func EnvStubs(st map[string]StubFn) {
 			return ""
 		}
 		switch x := e.Args[j].(type) {
-		case string, *Term:
+		case string, *Term, runesV:
 			return x
 		}
 		return toString(e.Args[j])
